@@ -92,3 +92,13 @@ add("C10", "exploration",
     "The cookiejar differential is asserted only while fewer than limit-1 distinct session ids were used (eviction is allowed beyond); "
     "client cookie values are simple tokens (http.Request.AddCookie sanitises others). Interleavings are sampled, the race detector amplifies.",
     "stateful property-based testing (rapid): generated request/Set-Cookie histories, differential against net/http/cookiejar + tag isolation; concurrent stress under the race detector", "3/C10")
+add("C11", "exploration",
+    "Delivery: generated operation sequences (data posts of 1-30 messages, backend bursts of 1-40 messages beyond the 10-slot buffers, polls, "
+    "a post concurrent with a poll; text = arbitrary valid UTF-8, binary = arbitrary bytes, sizes 0..1 MiB; shim protocol versions 0 and 1) run "
+    "against websockets.Proxy in-process with a real gorilla/websocket backend and are compared with model queues in both directions. "
+    "Injection: generated JSON/non-JSON messages x request headers with injection enabled, compared by a JSON-value oracle (byte identity "
+    "for everything that is not a JSON object with a resource.headers object); a native fuzz target repeats the byte-identity half in the "
+    "thorough tier. Sequences and timings are sampled.",
+    "One data post and one poll outstanding at a time (as the browser shim does); polls are only issued while a message is outstanding, so "
+    "the 20 s poll timeout is not exercised here. JSON numbers are float64-exact; version 0 carries text only.",
+    "stateful property-based testing (rapid): generated message/batching sequences against model queues; JSON-value oracle for injection; native go fuzzing", "3/C11")
